@@ -25,7 +25,7 @@ def dispatcher(crate, imp):
 
 
 def method_term(crate, imp, method, args):
-    e = Engine(crate); e.trait_dispatch = dispatcher(crate, imp)
+    e = Engine(crate, unroll=64); e.trait_dispatch = dispatcher(crate, imp)
     path = e.trait_dispatch(TRAIT, method)
     if crate.body(path) is None: return None, e, path
     r = e.run(path, [('p', 'self')] + args)
